@@ -10,21 +10,24 @@ ID = "C15"
 RULE = (
     "Part 'lists' (shards = length x first feature x 4 option settings): every ordered list of 1..3 features, each an interval over "
     "positions 1..5 (quick; 3-lists 1..4) / 1..6 (thorough) x seqid {c1,c2} x strand {+,-} (60 / 84 kinds); 1- and 2-lists also shifted "
-    "across the first bin boundary, with always_return_list off, and with identical attributes on all features. The real "
-    "interfeatures() output is compared with a reference (count, seqid, coordinates, featuretype, strand, merged attributes), each "
-    "interfeature's bin must equal bins(); inputs unchanged; on sampled executions the database is unchanged. Part 'empty': list, "
-    "tuple, exhausted generator and a query without hits x 4 settings yield nothing and do not raise. Part 'introns' (shards = blocks "
-    "of exon sets): first transcript = every set of 1..3 exons with distinct starts over positions 1..6 (quick) / 1..8 (thorough; also "
-    "4 exons over 1..6), 931 / 6742 sets; second transcript = 3 representative sets; x strand x exon line order x always_return_list; a "
-    "third transcript has only a CDS. create_introns (both selections, attributes, columns) and create_splice_sites (positions, labels, "
-    "distinct prefixed ids) are compared with the reference; database unchanged; after update() adds a gene both calls are re-checked. "
-    "Non-trivial = some consecutive pair touches/overlaps/changes seqid/differs in strand while another has a gap (lists); the first "
-    "transcript has >= 2 exons (introns); every empty execution."
+    "across the first bin boundary, with always_return_list off, and with identical attributes on all features; attribute values "
+    "include signed and exponent-notation numbers, several spellings of one number and repeats. The real interfeatures() output is "
+    "compared with a reference (count, seqid, coordinates, featuretype, strand, merged attributes), each interfeature's bin must equal "
+    "bins(); inputs unchanged; on sampled executions the database is unchanged. Part 'empty': list, tuple, exhausted generator and a "
+    "query without hits x 4 settings yield nothing and do not raise. Part 'unstranded' (4 executions): a 3-exon transcript with strand "
+    "'.' or '?' x both selections: intron and site positions as usual, no site labelled five- or three-prime. Part 'introns' (shards = "
+    "blocks of exon sets): first transcript = every set of 1..3 exons with distinct starts over positions 1..6 (quick) / 1..8 "
+    "(thorough; also 4 exons over 1..6), 931 / 6742 sets; second transcript = 3 representative sets; x strand x exon line order x "
+    "always_return_list; a third transcript has only a CDS. create_introns (both selections, attributes, columns) and "
+    "create_splice_sites (positions, labels, distinct prefixed ids) are compared with the reference; database unchanged; after update() "
+    "adds a gene both calls are re-checked. Non-trivial = some consecutive pair touches/overlaps/changes seqid/differs in strand while "
+    "another has a gap (lists); the first transcript has >= 2 exons (introns); every empty and unstranded execution."
 )
 ASSUMPTIONS = [
     "exons of one transcript have distinct starts (order among equal starts is unspecified)",
     "score/frame/source/id of a derived interfeature are not demanded",
     "introns part: the first transcript ranges over every exon set, the second over three representative sets (first, middle, last)",
+    "a transcript without strand ('.' or '?') gives no ground for a five-/three-prime label: only such labels are objected to there",
 ]
 
 SETTINGS = [
